@@ -11,6 +11,12 @@ TRUST = ("Trusted base: go/types, go/ssa and the VTA/CHA call graphs of golang.o
 
 # id -> (technique, claim text, design_ref)
 CLAIMED = {
+ "C01": ("E-OWN who-may-use rule for the transport; SSA dominance/value-identity rules on sendPacket, sendPackets, NewPacket; must-pass-through by path enumeration",
+         "Decides structural necessary conditions of well-formed packetisation: only sendPacket writes the transport; message type stamped; EOM derived from the live packet body size exactly on short packets; header length and body trimmed together; the partial-packet test is strict, against the live body size and only for the packet being filled; sent packets are discarded on every exit; a flush includes the partial packet. The zero-packet flush at exact multiples of the body size is a recorded finding. Numeric quantification over lengths and packet sizes is not decided.",
+         "DESIGN.md §3 C01"),
+ "C02": ("SSA value-identity and path rules on the parse-or-rollback loop; freshness/E-OWN rules; completeness rules on the transport readers; E-ERR over all wire-read call sites",
+         "Decides structural necessary conditions of fragmentation independence: rollback restores exactly the position saved for the same attempt, discards only follow success, parse state is fresh per attempt, fixed-size transport reads are complete before success, packets are queued in arrival order, and (the parser side) every short read at any of the >210 read sites surfaces as ErrNotEnoughBytes. Equality of delivered packages over cut sets is not decided.",
+         "DESIGN.md §3 C02"),
  "C13": ("SSA must-lockset (blocking-operation-under-lock, lock re-acquisition incl. LIFO replay of deferred calls), select-shape rules, closed-protocol dominance, must-pass-through by path enumeration",
          "Decides the structural conditions of 'never blocks, never delivers after close': every blocking receive has both Done() escapes, every send on the bounded queues is examined (the nine bare sends of the reader goroutine are recorded findings), every channel method tests closed under the lock before touching torn-down state, Close tears down in order, packet writes are preceded by a context test, Conn.Close cancels/closes on every path, the reader is bound to the connection context, no RWMutex is re-acquired through a callee, and every forwarded context derives from the caller's. Durations and schedules are not explored.",
          "DESIGN.md §3 C13"),
